@@ -408,7 +408,10 @@ class Harness:
         reads = []
         if dead:
             for i in range(3):
-                reads.append(_read(w, case, WorkerTerminatedError))
+                if i < 2:
+                    reads.append(_read(w, case, WorkerTerminatedError))
+                else:
+                    reads.append(_read_fresh(w, case, WorkerTerminatedError, reads[0]))
                 if polled and i == 0:
                     time.sleep(2.5)
                 try:
@@ -557,14 +560,20 @@ def _tag_error(e, WTE):
     return 'other'
 
 
-def _read(w, case, WTE):
+def _read(w, case, WTE, alive_first=False):
+    """has_error / result / error / is_alive of a worker already observed dead.  The accessors are read BEFORE is_alive()
+    unless alive_first: wait() returning True is an observation of death on its own."""
     out = {'result_n': 0, 'detail': ''}
-    try:
-        a = w.is_alive()
-        out['alive'] = 'T' if a is True else 'F' if a is False else 'other'
-    except BaseException as e:  # noqa
-        out['alive'] = 'raised'
-        out['detail'] += ' is_alive raised %s;' % type(e).__name__
+
+    def alive():
+        try:
+            a = w.is_alive()
+            out['alive'] = 'T' if a is True else 'F' if a is False else 'other'
+        except BaseException as e:  # noqa
+            out['alive'] = 'raised'
+            out['detail'] += ' is_alive raised %s;' % type(e).__name__
+    if alive_first:
+        alive()
     try:
         h = w.has_error
         out['has_error'] = 'T' if h is True else 'F' if h is False else 'None' if h is None else 'other'
@@ -584,7 +593,36 @@ def _read(w, case, WTE):
     except BaseException as e:  # noqa
         out['error'] = 'raised'
         out['detail'] += ' error raised %s;' % type(e).__name__
+    if not alive_first:
+        alive()
     return out
+
+
+def _read_fresh(w, case, WTE, first):
+    """the same reads made by threads started AFTER the worker died (thread idents are recycled: a new thread may be
+    handed the ident of the dead worker's thread); returns the first read that differs from `first`, else the last one"""
+    import threading
+    got = None
+    for _ in range(6):
+        box = []
+
+        def body():
+            r = _read(w, case, WTE, alive_first=True)
+            try:
+                w.wait(0)
+            except BaseException as e:  # noqa
+                r['alive'] = 'raised'
+                r['detail'] += ' wait(0) from a new thread raised %s;' % type(e).__name__
+            box.append(r)
+        t = threading.Thread(target=body)
+        t.start()
+        t.join(20)
+        if not box:
+            return {'alive': 'raised', 'has_error': 'raised', 'result': 'raised', 'result_n': 0, 'error': 'raised', 'detail': 'reads from a new thread hung'}
+        got = box[0]
+        if any(got[k] != first[k] for k in ('alive', 'has_error', 'result', 'result_n', 'error')):
+            return got
+    return got
 
 
 def _us(w, case):
